@@ -248,14 +248,66 @@ def unconditional_entries(ctx, s, puts, dels):
               "remove_by_offset can succeed without calling %s" % callee.split("::")[-1])
 
 
+def _paired_removal(ctx, s, fn, D1, D2):
+    """in fn, deindex and deindex_id Ok-outcomes alternate (either order) on every path to Ok, and address one event"""
+    an = ctx.E.an(fn)
+    oks = [n for n, k, v in s.return_kinds(fn) if k == "ok"]
+    s1, s2 = s.calls(fn, names={D1}), s.calls(fn, names={D2})
+    if not s1 or not s2:
+        return False, "calls %s without %s" % ((D1 if s1 else D2).rsplit("::", 1)[-1], (D2 if s1 else D1).rsplit("::", 1)[-1])
+
+    def order_ok(first, second):
+        good2 = [e for b, i in second for e in s.ok_edges_of_call(fn, b)]
+        good1 = [e for b, i in first for e in s.ok_edges_of_call(fn, b)]
+        for b, i in first:
+            # after the first half succeeded: no Ok return and no further first half before the second half succeeded
+            starts = s.ok_edges_of_call(fn, b)
+            if not starts:
+                return "no success outcome of the call is distinguished"
+            reach = s.reach(fn, starts, avoid=good2)
+            if any(n in reach for n in oks):
+                return "can succeed after %s without %s" % (i["callee"].rsplit("::", 1)[-1], second[0][1]["callee"].rsplit("::", 1)[-1])
+            if any(b_ in reach for b_, _ in first):
+                return "removes a second event's %s half before finishing the first" % i["callee"].rsplit("::", 1)[-1]
+        # the second half never runs without a first half since the last second half
+        starts = [an.cfg.entry] + good2
+        reach = s.reach(fn, starts, avoid=good1)
+        if any(b_ in reach for b_, _ in second):
+            return "%s can run without %s before it" % (second[0][1]["callee"].rsplit("::", 1)[-1], first[0][1]["callee"].rsplit("::", 1)[-1])
+        return None
+    w12 = order_ok(s1, s2)
+    w = w12 if w12 is None else (order_ok(s2, s1) and w12)
+    if w:
+        return False, w
+    # same event: the id handed to deindex_id is the id of an event handed to deindex
+    evs = [i["args"][2] for b, i in s1]
+    for b, i in s2:
+        idv = i["args"][2]
+        same = any(contains_value(idv, lambda y: y[0] == "call" and y[1].rsplit("::", 1)[-1] == "id" and contains_value(y, lambda z: z == e))
+                   for e in evs)
+        if not same:
+            return False, "the id removed from the id index is not the id of the event removed from the other indexes"
+    return True, ""
+
+
 def removal_funnel(ctx, s):
     """every deletion from an index table happens in deindex/deindex_id, reached only through remove_by_offset"""
     F, G = ctx.F, ctx.G
-    for callee, want in (("pocket_db::Lmdb::deindex", ["pocket_db::Store::remove_by_offset"]),
-                         ("pocket_db::Lmdb::deindex_id", ["pocket_db::Store::remove_by_offset"])):
-        callers = s.callers(callee)
+    # whoever takes an event out of the general indexes takes it out of the id index too (and the other way round),
+    # for the same event, before it can succeed or remove the next one
+    D1, D2 = "pocket_db::Lmdb::deindex", "pocket_db::Lmdb::deindex_id"
+    c1, c2 = s.callers(D1), s.callers(D2)
+    verdicts = {}
+    for cn in sorted(set(c1) | set(c2)):
+        verdicts[cn] = _paired_removal(ctx, s, ctx.fn(cn), D1, D2)
+    for callee, callers in ((D1, c1), (D2, c2)):
+        bad = [(cn, verdicts[cn][1]) for cn in callers if not verdicts[cn][0]]
+        outside = [cn for cn in callers if not cn.startswith("pocket_db::")]
+        ok = bool(callers) and not bad and not outside
         s.add("S-WHO", ctx.fn(callee), "callers", callee.split("::")[-1], ctx.fn(callee).sp,
-              PROVED if callers == want else VIOLATION, "callers: %s" % ", ".join(callers))
+              PROVED if ok else VIOLATION,
+              ("callers: %s - each removes both halves of the same event" % ", ".join(callers)) if ok else
+              ("callers: %s; %s" % (", ".join(callers), "; ".join("%s: %s" % b for b in bad) or "called from outside pocket_db")))
     n = 0
     bad = []
     for p, f in sorted(F.fns.items()):
@@ -458,7 +510,7 @@ def rebuild_table_cover(ctx, s):
               "the only append copies the event fetched for the current id-index entry" if ok else
               "the append in rebuild is not the per-id-entry copy (unreferenced bytes could be retained or events skipped)", ab)
     # extra tables: iterate the old table, put into the new one
-    ex = s.calls(rb, names={"pocket_db::Store::extra_table"})
+    ex = s.calls(rb, names={"pocket_db::Store::extra_table", "pocket_db::Lmdb::extra_table"})
     an = ctx.E.an(rb)
     raw_put = [(b, i) for b, i in an.calls() if (i["callee"] or "").startswith("heed::database::") and i["callee"].endswith("::put")]
     raw_iter = [(b, i) for b, i in an.calls() if (i["callee"] or "").startswith("heed::database::") and i["callee"].endswith("::iter")]
@@ -556,18 +608,18 @@ def rebuild_backup(ctx, s):
     # every index environment rebuild opens is either handed back in the returned store or explicitly closed on the way
     # to Ok: heed keeps an opened environment in a process-wide cache (by path) until prepare_for_closing, so one that
     # is merely dropped is handed out again to whoever opens that path next - the next rebuild's lmdb.bak
-    from ..srules import leaf_values
+    from ..srules import leaf_values, contains_deep
     opens = s.calls(rb, names={"pocket_db::Lmdb::new"})
     closes = s.calls(rb, names={"pocket_db::Lmdb::close"})
     oks_rb = [(n, v) for n, k_, v in s.return_kinds(rb) if k_ == "ok"]
     for ob, oinfo in opens:
         val = oinfo["value"]
         is_val = lambda y: y == val
-        returned = any(contains_value(v, is_val) or any(contains_value(l, is_val) for l in leaf_values(an, v)) for n, v in oks_rb)
+        returned = any(contains_deep(an, v, is_val) for n, v in oks_rb)
         closed = False
         for cb, cinfo in closes:
             recv = [cinfo["args"][0]] + [p for p in cinfo["pre"][:1] if p is not None]
-            if any(contains_value(x, is_val) or any(contains_value(l, is_val) for l in leaf_values(an, x)) for x in recv):
+            if any(contains_deep(an, x, is_val) for x in recv):
                 good = s.ok_edges_of_call(rb, cb) or [cb]
                 reach = s.reach(rb, [an.cfg.entry], avoid=good)
                 if not any(n in reach for n, v in oks_rb):
@@ -786,3 +838,37 @@ def naddr_marker_monotone(ctx, s):
         s.add("S-MAXUPD", fn, "marker-time-only-grows", "deleted_naddrs.put", info["sp"], PROVED if ok else VIOLATION,
               "the put is reached only when no time is stored for the key or the stored time is smaller than the new one" if ok else
               "the stored deletion time can be overwritten by an older one (newest-first arrival lowers it)", b)
+
+
+LOOKUPS = (("pocket_db::Lmdb::get_offset_by_id", "i_index"), ("pocket_db::Lmdb::is_deleted", "deleted_ids"),
+           ("pocket_db::Lmdb::when_is_naddr_deleted", "deleted_naddrs"))
+
+
+def lookups_answer_from_table(ctx, s, which=None):
+    """S-MUSTPASS: a lookup answers only from its table, read through the caller's transaction.  An answer given without
+    the read (a remembered "missing", a cached "deleted", a process-local "nothing marked yet" flag) is not tied to any
+    transaction: it survives a rollback, is blind to what another handle or an earlier process committed, and so can
+    contradict what is stored."""
+    for name, table in LOOKUPS:
+        if which and name.rsplit("::", 1)[-1] not in which:
+            continue
+        fn = ctx.fn(name)
+        an = ctx.E.an(fn)
+        ctx.functions.add(fn.path)
+        gets = [(b, info) for b, info, t, key, conds in table_ops(ctx, s, fn, ("get",)) if t.endswith(table)]
+        oks = [n for n, k, v in s.return_kinds(fn) if k == "ok"]
+        short = name.rsplit("::", 1)[-1]
+        if not gets:
+            s.add("S-MUSTPASS", fn, "lookup-answers-from-table", short, fn.sp, VIOLATION if oks else UNDECIDED,
+                  "%s never reads %s" % (short, table))
+            continue
+        txn_ok = all(contains_value(i["args"][1], lambda y: y == ("param", 2)) for b, i in gets)
+        good = [e for b, i in gets for e in (s.ok_edges_of_call(fn, b) or [b])]
+        reach = s.reach(fn, [an.cfg.entry], avoid=good)
+        bad = [n for n in oks if n in reach]
+        ok = not bad and txn_ok
+        s.add("S-MUSTPASS", fn, "lookup-answers-from-table", short, fn.sp, PROVED if ok else VIOLATION,
+              "every answer follows a read of %s through the caller's transaction" % table if ok else
+              ("%s can answer without reading %s (a remembered or cached answer): it is not tied to the caller's transaction, so it "
+               "can contradict the table after a rollback, a reopen or a write through another path" % (short, table) if bad else
+               "%s reads %s through a transaction other than the caller's" % (short, table)))
